@@ -70,13 +70,19 @@ theorem saveJson_shape (K : Consts) (ts : TypeSystem) (cass : List Cas) (ci : Na
 /-- embedded types are created supertypes first, whatever the order of the declarations -/
 theorem toposort_sound (types : List JType) (order : List String) (h : toposort types = .ok order) :
     (∀ t ∈ types, t.name ∈ order) ∧
-    ∀ t ∈ types, t.super ≠ t.name → ∀ i j, order[i]? = some t.name → order[j]? = some t.super → j < i :=
+    ∀ t ∈ types, t.super ≠ t.name → ∀ i j : Nat, order[i]? = some t.name → order[j]? = some t.super → j < i :=
   toposort_sound_aux types order h
 
 /-! Non-vacuity (tests of concrete instances) -/
 example : toposort [{ name := "x.B", super := "x.A" }, { name := "x.A", super := "uima.tcas.Annotation" }] =
-    .ok ["uima.tcas.Annotation", "x.A", "x.B"] := by decide +kernel
-example : parseFloatValue (floatElem "-Infinity") = .ok (.float "-Infinity") := by decide
+    .ok ["uima.tcas.Annotation", "x.A", "x.B"] := by
+  unfold toposort
+  simp only []
+  rw [toposort_go_step1 _ _ 3 _ _ "uima.tcas.Annotation" (by decide) (by decide) (by decide)]
+  rw [toposort_go_step1 _ _ 2 _ _ "x.A" (by decide) (by decide) (by decide)]
+  rw [toposort_go_step1 _ _ 1 _ _ "x.B" (by decide) (by decide) (by decide)]
+  rfl
+example : parseFloatValue (floatElem "-Infinity") = .ok (.float "-Infinity") := by rfl
 example : (renderFeatDecl Gen.consts { name := "a", domain := "x.T", range := "uima.cas.IntegerArray" }).range = "uima.cas.Integer[]" := by
   decide +kernel
 
